@@ -26,7 +26,7 @@ fn floor_log2_pow10(q: i64) -> i64 {
 }
 
 /// Eisel-Lemire 128-bit significand for 5^q, as specified in etc/lemire_table.py.
-fn lemire_entry(q: i32) -> (u64, u64) {
+pub fn lemire_entry(q: i32) -> (u64, u64) {
     let c: Nat = if q < 0 {
         let p5 = pow5().get((-q) as usize);
         // smallest z with 2^z >= 5^-q
